@@ -237,7 +237,14 @@ class Builder(object):
         if module == "LOCAL":
             cls.__module__ = "__main__"
             if register_local:
-                self.config.classes.add(cls)
+                # the three ways to enter a class into the local table (chosen by the class name, so replays agree)
+                how = sum(map(ord, cls.__name__)) % 3
+                if how == 0:
+                    self.config.classes.add(cls)
+                elif how == 1:
+                    self.config.classes.add(cls, cls.__name__)
+                else:
+                    self.config.classes[cls.__name__] = cls
         else:
             cls.__module__ = module
             setattr(sys.modules[module], cls.__name__, cls)
